@@ -175,6 +175,24 @@ def spec_builtin(I, st, name, args, kwargs, node):
         from . import asyncio_model
         which = node.args[0].value if node.args else "time"
         return asyncio_model.clock_value(I, st, which, old=st.in_old and st.old_heap is None)
+    if name == "ufun":
+        # ufun('name', 'RetType', args...): an uninterpreted function of the *values* of its arguments (a dict argument
+        # contributes its key set and its value map, so equal contents give equal results)
+        fname = node.args[0].value
+        rty = REG.parse(node.args[1].value)
+        terms = []
+        for a in args[2:]:
+            base = strip_opt(a.ty)
+            if isinstance(base, tuple) and base[0] == "MMap":
+                terms += [a.term[0], a.term[1]]
+            elif is_ref(base) and REG.get(base[1]).kind in ("dict",):
+                terms += [I.dom_of(st, a), I.vals_of(st, a)]
+            elif is_ref(base) and REG.get(base[1]).kind in ("set",):
+                terms += [I.dom_of(st, a)]
+            else:
+                terms.append(a.term)
+        f = z3.Function("uf_" + fname, *([t.sort() for t in terms] + [sort_of(rty)]))
+        return Val(rty, f(*terms))
     if name == "dec":
         from . import builtins_model
         return mkreal(builtins_model.real_of_str(args[0].term))
